@@ -1096,6 +1096,18 @@ func (p *parser) parseBlocks(parent ast.Node, reader text.Reader, pc Context) {
 					return
 				}
 				lineNum, _ := reader.Position()
+				if i == 0 {
+					// isBlankLine only ever asks about the previous line: drop
+					// what is older, or the statistics grow by one entry per open
+					// block and line (quadratic for deeply nested containers)
+					k := 0
+					for k < len(blankLines) && blankLines[k].lineNum < lineNum-1 {
+						k++
+					}
+					if k > 0 {
+						blankLines = append(blankLines[:0], blankLines[k:]...)
+					}
+				}
 				blankLines = append(blankLines, lineStat{lineNum, i, util.IsBlank(line)})
 				// If node is a paragraph, p.openBlocks determines whether it is continuable.
 				// So we do not process paragraphs here.
